@@ -108,6 +108,44 @@ def comments(L):
     return out, skipped
 
 
+def joins():
+    """Two statements of quoted characters written on one line (C18: consecutive instructions on one line)."""
+    out = []
+    for x, y in itertools.product(TRICKY, repeat=2):
+        for sep in (' ', '  ', '\t'):
+            out.append({'line': f'ldi {lit(x)}{sep}ldi {lit(y)}', 'bytes': [0xA5, ord(x), 0xA5, ord(y)]})
+            out.append({'line': f'put2 {lit(x)}, {lit(y)}{sep}nop', 'bytes': [0xB6, ord(x), ord(y), 0]})
+            out.append({'line': f'nop{sep}put2 {lit(x)}, {lit(y)}', 'bytes': [0, 0xB6, ord(x), ord(y)]})
+            out.append({'line': f'ldi {lit(x)}{sep}nop{sep};{y}', 'bytes': [0xA5, ord(x), 0]})
+    return [j for j in out if not ambiguous(j['line'], False)]
+
+
+def strings(tier):
+    """Quoted strings of 1..3 elements (a letter, semicolon, comma, blank, the other quote, an escaped backslash, an escaped
+    quote, a newline escape) in both quote styles under .cstr / .asciiz / .byte, alone and followed by every comment of
+    length <= L: the bytes are the characters (and the terminator 0).  Left out: single-quoted texts of one element (a
+    character literal) and single-quoted texts that begin with an escaped quote (two readings, see ambiguous())."""
+    nmax, L = (3, 2) if tier == 'thorough' else (2, 1)
+    coms = [''.join(t) for n in range(L + 1) for t in itertools.product(COMMENT_ALPHABET, repeat=n)]
+    out = []
+    for q in ('"', "'"):
+        other = '"' if q == "'" else "'"
+        el = [('a', 97), (';', 59), (other, ord(other)), ('\\\\', 92), ('\\' + q, ord(q)), (' ', 32), (',', 44), ('\\n', 10)]
+        for n in range(1, nmax + 1):
+            for combo in itertools.product(el, repeat=n):
+                text = ''.join(c[0] for c in combo)
+                bs = [c[1] for c in combo]
+                if q == "'" and (text.startswith("\\'") or n == 1):
+                    continue
+                for d, term in (('.cstr', [0]), ('.asciiz', [0]), ('.byte', [])):
+                    stmt = f'{d} {q}{text}{q}'
+                    out.append({'line': stmt, 'bytes': bs + term})
+                    for gap in ('', ' '):
+                        for c in coms:
+                            out.append({'line': stmt + gap + ';' + c, 'bytes': bs + term})
+    return out
+
+
 def assemble(lines):
     src = '\n'.join(lines) + '\n'
     r = runner.run_forked(['compile', '-c', 'isa.json', '-o', 'out.bin', 'p.asm'], {'isa.json': ISA_TEXT, 'p.asm': src},
